@@ -140,6 +140,15 @@ func (c Case) Script() string {
 	return "ret:0"
 }
 
+// Variant selects the client variation of a case (a function of the case, so that a replay does the same).
+func Variant(c Case) int {
+	h := 0
+	for _, b := range []byte(c.Key()) {
+		h = (h*31 + int(b)) % 1000003
+	}
+	return h % 4
+}
+
 // ObsLine is one access-log line of the case ("{status} {size} {>X-Case}").
 type ObsLine struct {
 	Status int    `json:"status"`
@@ -205,7 +214,20 @@ func Tokens(body string) []string {
 
 // Run plays the case on the fixture (which must have been started for c.Cfg()).
 func (f *Fixture) Run(c Case, id string) Obs {
-	cv := f.Exchange(id, c.URLPath(), c.Script(), c.Gz)
+	// two variations of the client that the model takes no notice of (the statement speaks of every
+	// request): for an error reported without writing - the answer is then made by errors / log /
+	// the server - the request carries conditional and range headers (they mean nothing for an
+	// error page), or the client shuts down its sending side and waits while the handler takes a moment
+	var cv ClientView
+	noWrite := (c.Eff.K == "ret" && c.Eff.S >= 400) || c.Eff.K == "panicbefore"
+	switch v := Variant(c); {
+	case noWrite && v == 1 && c.Eff.K == "ret":
+		cv = f.Exchange(id, c.URLPath(), c.Script(), c.Gz, "Range: bytes=0-3", "If-None-Match: *", `If-Match: "nomatch"`)
+	case noWrite && v == 2 && c.Path != "st404":
+		cv = f.ExchangeHalfClosed(id, c.URLPath(), "sleep:30;"+c.Script(), c.Gz)
+	default:
+		cv = f.Exchange(id, c.URLPath(), c.Script(), c.Gz)
+	}
 	view, ok := f.Counter.View(id)
 	o := Obs{Status: cv.Status, Gz: cv.Gzipped, Commits: view.Commits, RawLen: len(cv.Raw), AfterOK: cv.AfterOK,
 		Err: cv.Err, Escaped: view.Panicked}
